@@ -196,6 +196,22 @@ func init() {
 			}
 			return nil
 		},
+		"vNamedInt": func(in *Interp, fn *ssa.Function, a []Value) Value {
+			// the same name yields the same variable within a path (used to model an uninterpreted function)
+			name := "named:" + concreteStr(a[0])
+			t := in.ts.Var(name, 64)
+			seen := false
+			for _, v := range in.inputs {
+				if v == t {
+					seen = true
+					break
+				}
+			}
+			if !seen {
+				in.inputs = append(in.inputs, t)
+			}
+			return t
+		},
 		"vSymbolic": func(in *Interp, fn *ssa.Function, a []Value) Value { return in.ts.True },
 	}
 
@@ -448,6 +464,9 @@ func modelSortSlice(in *Interp, fn *ssa.Function, a []Value) Value {
 	n := s.len
 	if n < 2 {
 		return nil
+	}
+	if in.cfg.SortFrontOnlyAbove > 0 && n > in.cfg.SortFrontOnlyAbove {
+		return modelSortSliceFront(in, s, less)
 	}
 	elems := make([]Value, n)
 	copy(elems, s.c.v.(ArrayV)[s.off:s.off+n])
@@ -727,4 +746,33 @@ func (in *Interp) collectGuarded(v Value, depth int) {
 			in.collectGuarded(x.v, depth+1)
 		}
 	}
+}
+
+// modelSortSliceFront: contract model of sort.Slice restricted to what the repository reads of large
+// sorted slices, the first element: any element k such that no element is strictly before it
+// (¬less(j,k) for all j) may end up at index 0 (one path per k); the order of the remaining elements is
+// left unspecified (unchanged). Only used where stated in the property's bounds.
+func modelSortSliceFront(in *Interp, s SliceV, less Value) Value {
+	n := s.len
+	k := in.choose(n)
+	for j := 0; j < n; j++ {
+		if j == k {
+			continue
+		}
+		r := in.invoke(nil, less, []Value{in.ts.BV(uint64(j), 64), in.ts.BV(uint64(k), 64)}, nil, nil).(*Term)
+		nr := in.ts.Not(r)
+		switch in.decide(nr) {
+		case 0:
+			panic(pathEnd{"infeasible"})
+		case 2:
+			in.assume(nr)
+		}
+	}
+	if k != 0 {
+		in.journalCell(s.c)
+		arr := append(ArrayV{}, s.c.v.(ArrayV)...)
+		arr[s.off], arr[s.off+k] = arr[s.off+k], arr[s.off]
+		s.c.v = arr
+	}
+	return nil
 }
